@@ -68,14 +68,16 @@ def replay_kani(ob, r, ctx):
     patch_playback_tests(crate)
     ok_any = False
     body += ['--- concrete playback unit tests (inserted into the scratch copy of the harness crate) ---', playback_sources(crate), '']
-    for t in sorted(set(tests))[:8]:
-        rc2, out2, _ = run('cd %s && cargo kani playback -Z concrete-playback -- %s' % (crate, t), timeout=900, mem_gb=16)
-        failed = bool(re.search(r'test result: FAILED', out2))
-        msg = re.findall(r"panicked at [^\n]*\n[^\n]*", out2)
-        body += ['--- native playback of %s: %s ---' % (t, 'PANICS (reproduced): ' + ' | '.join(m.replace('\n', ' ') for m in msg[:2]) if failed else 'passes (a cover witness or not reproduced)'), '']
-        if not failed and 'test result: ok' not in out2:
-            body += [out2[-1500:]]
-        ok_any = ok_any or failed
+    # all generated tests in ONE native run (a failing check and the cover witnesses each get a test; only the former panic)
+    rc2, out2, _ = run('cd %s && cargo kani playback -Z concrete-playback -- kani_concrete_playback' % crate, timeout=1500, mem_gb=16)
+    failed_tests = re.findall(r'^test (\S*kani_concrete_playback_\w+) \.\.\. FAILED', out2, flags=re.M)
+    passed_tests = re.findall(r'^test (\S*kani_concrete_playback_\w+) \.\.\. ok', out2, flags=re.M)
+    msg = re.findall(r"panicked at [^\n]*\n[^\n]*", out2)
+    body += ['--- native playback: %d generated tests, %d PANIC natively (reproduced), %d pass (cover witnesses / not reproduced) ---' % (len(set(tests)), len(failed_tests), len(passed_tests))]
+    body += ['    ' + m.replace('\n', ' ') for m in msg[:6]]
+    if not failed_tests and not passed_tests:
+        body += [out2[-2000:]]
+    ok_any = bool(failed_tests)
     return '\n'.join(body), ok_any, 'native playback of the extracted text on the model types'
 
 
